@@ -48,6 +48,18 @@ CHECKS = {
              text="TLC exhausts the prefetch part of the router model; on real routers 8 s entries are hit by bursts of 24-40 concurrent clients at the start of the last quarter while the scripted upstream stalls, fails (garbage, silence, SERVFAIL reply) or completes the refresh; TLC checks single-flight on the hook events and on the upstream's view (no two overlapping exchanges for a key that has a live entry), that window hits are answered within the slack while the refresh is stalled, that hits after a successful refresh carry the renewed entry, and that a failed refresh leaves the old entry served.",
              note="Schedules are sampled (27 keys x bursts per run); latency bound one-sided.",
              ref="DESIGN.md section 4 C19"),
+ "C01": dict(technique="TLA+ step machine of the name decoder (TLC exhaustive over all inputs of a critical-octet alphabet: in-bounds invariant, termination as a liveness property) + the same TLC-enumerated inputs and seeded mutations replayed into the real decoder under a crash/hang supervisor + TLC trace validation of every verdict against the specification's decoder",
+             text="TLC explores the decoder machine on every octet string over {end, tiny labels, maximal label, reserved prefix, pointer high/low octets, data} up to 5 (thorough: 7) octets: no access outside the input, name length bound, and termination (a pointer loop would be a lasso; the variant without hop limit is rejected); each enumerated input (as a question name, bare and followed by type/class) and thousands of structure-aware mutations (truncation, lying counts and RDLENGTH, pointers to self/forward/header/chains of 9-12, reserved prefixes, 250-257 octet names) are executed by the real dnsmsg.UnpackMsg under a supervisor; TLC checks that the recorded verdict equals the specification decoder's and, when accepted, the parsed content too; a panic or a 3 s stall is an event the specification has no action for.",
+             note="Memory safety of Go code is observable only as a panic; the listener-level clause (reject and keep serving) is covered by the router driver's malformed-input mode.",
+             ref="DESIGN.md section 4 C01"),
+ "C02": dict(technique="TLA+ codec specification (independent RFC 1035 decoder, uncompressed and compressing encoder as the code builds its table, advertised length) exhaustively round-tripped over a universe of boundary-imitating labels (TLC) + TLC-generated messages packed by the real Msg.Pack + seeded wire images decoded and re-encoded by the real code + TLC trace validation",
+             text="TLC round-trips every message of a bounded universe whose label octets imitate label boundaries (22 k messages; 690 k thorough) through the specification's own encoders and decoder and rejects the pre-repair compression key; every TLC-generated message is built as a real dnsmsg.Msg and packed with and without compression, and seeded wire images with pointers anywhere legal (also inside RDATA), all typed records, binary labels, empty RDATA and TTL extremes are decoded and re-encoded by the real code; TLC decodes each recorded wire image with the specification decoder and requires equality with the abstract message (octet-exact names, RDATA names after decompression), full consumption, and the exact advertised length for uncompressed output.",
+             note="The reserved Z header bit is not treated as a header field; cross-decoding by other DNS libraries is not part of the verdict (the specification decoder is the independent implementation).",
+             ref="DESIGN.md section 4 C02"),
+ "C09": dict(technique="TLA+ properties of a size-limited encoding evaluated by TLC on the decoded result of the real Msg.Pack for seeded record mixes, limits and OPT positions (trace validation)",
+             text="Thousands of responses (0-90 records of 1-400 octets, OPT absent / at a random position / with options, question absent) are packed by the real Msg.Pack under limits {0 < size < 512, 512, 1232, 4096, 65535, exact length, length +-1, half, random}, with and without compression; TLC decodes each result with the specification decoder and checks the limit max(512, size), clean decoding with counts equal to records present, TC iff something was omitted, nothing omitted when the uncompressed encoding fits, question and OPT kept, and that kept answers/authorities are an unmodified subsequence.",
+             note="Checked at Msg.Pack; listener-level size selection is exercised by the router driver.",
+             ref="DESIGN.md section 4 C09"),
 }
 
 PENDING_REASON = "check under construction in this round (see DESIGN.md section 4); not claimed until its machinery is committed and passes on the unchanged tree"
